@@ -1,5 +1,6 @@
 """C03 — block acceptance rules: header-level verifiers, epoch/target match, propose/commit window, size limits (engine M).
 Whole-block iff, uncle descent, merkle roots, cellbase shape and the transactional refusal clause are outside."""
+import re
 from mir2smt.ob import *
 from mir2smt import terms as T
 from mir2smt.exec import OpaqueV, IntV, BoolV, AggV, EnumV, RefV, UNIT, Stop, mk_option
@@ -242,7 +243,143 @@ def m7_uncle_guards(S):
     S.witness(ctx, ob, "reach_ok_at_boundaries", pre + [T.eq(cnt.t, 1), ok], T.and_(T.eq(cnt.t, maxu.t), T.eq(T.add(un.t, 1), bn.t), T.eq(plen.t, plim.t)))
 
 
-OBLIGATIONS = [m1_number_epoch, m2_timestamp, m3_contextual_epoch, m4_limits, m5_commit_window, m6_median_time, m7_uncle_guards]
+def _term_vars(v):
+    """names of the symbols a logged value is made of"""
+    out = set()
+    if isinstance(v, IntV):
+        out |= {x for x in T.free_vars(v.t)} if not T.is_const(v.t) else set()
+    elif isinstance(v, AggV):
+        for f in v.fields:
+            out |= _term_vars(f)
+    elif isinstance(v, EnumV):
+        for _k, fs in v.payloads:
+            for f in fs:
+                out |= _term_vars(f)
+    elif isinstance(v, OpaqueV):
+        out.add(v.name)
+    return out
+
+
+def m8_header_verifier_composition(S):
+    """HeaderVerifier::verify (the header check a peer's or miner's block passes first) accepts only if the PoW, number, epoch and
+    timestamp parts all ran and accepted and the parent is known; the number/epoch parts are given the *parent's* fields"""
+    from mir2smt import compose as C
+    from mir2smt.srcinfo import field_index
+    ob = "C03.m8"
+    ctx = S.ctx()
+    ctx.uninterpreted_unknown_calls = True
+    known = ctx.bool("parent_known")
+    parts = [("pow", r"PowVerifier::<.*>::verify$"), ("number", r"NumberVerifier::<.*>::verify$"), ("epoch", r"header_verifier::EpochVerifier::<.*>::verify$"),
+             ("timestamp", r"TimestampVerifier::<.*>::verify$")]
+    ctx.env = C.parts_env(parts) + [
+        (E.rx(r"as HeaderFieldsProvider>::get_header_fields$"), lambda ex, c, a, d: (ex.log.append(("get_header_fields", c, [E.snapshot(ex, x) for x in a], list(ex.pc))), mk_option(known.t, OpaqueV("pf", "HeaderFields"), d))[1]),
+        (E.rx(r"HeaderView::parent_hash$"), lambda ex, c, a, d: OpaqueV("parent_hash_of." + getattr(deref(ex, a[0]), "name", "?"), d)),
+        (E.rx(r"unix_time_as_millis"), E.opaque_call()),
+        (E.rx(r"Consensus::(pow_engine|median_time_block_count)$|as AsRef<.*>>::as_ref$"), E.opaque_call()),
+    ] + ERR
+    cands = [f for f in S.prog.funcs if f.kind == "fn" and f.short == "verify" and "header_verifier.rs" in f.name and f.params and "HeaderVerifier<" in f.params[0][1]]
+    if len(cands) != 1:
+        raise Inconclusive(f"HeaderVerifier::verify: {len(cands)} candidates")
+    ps = S.run(ctx, cands[0], [ctx.ref_to(OpaqueV("hv", "HeaderVerifier")), ctx.ref_to(OpaqueV("hdr", "HeaderView"))])
+    C.check(S, ctx, ob, "header_verifier", ps, [t for t, _ in parts], complete_when=[known.t])
+    # an unknown parent is a rejection
+    okc = T.or_(*[T.and_(p.cond(), C.ok_cond(p)) for p in returns(ps)])
+    S.prove(ctx, ob, "header_verifier_unknown_parent_rejected", [T.not_(known.t)], T.not_(okc))
+    # wiring: the parent looked up is the header's parent hash; number/epoch parts receive the parent's number / epoch
+    fi = field_index("traits/src/header_provider.rs", "HeaderFields")
+    for k, p in enumerate(returns(ps)):
+        for e in p.log:
+            if e[0] == "get_header_fields":
+                arg = e[2][1]
+                S.prove(ctx, ob, f"path{k}_parent_lookup_uses_parent_hash", [p.cond()], bool(getattr(arg, "name", "") == "parent_hash_of.hdr"))
+        for tag, fld in (("number", "number"), ("epoch", "epoch")):
+            for e in C.called(p, tag):
+                vs = _term_vars(e[2][0])
+                want = f"pf.{fi[fld]}"
+                S.prove(ctx, ob, f"path{k}_{tag}_part_gets_parent_{fld}", [p.cond()], bool(any(v == want or v.startswith(want + ".") for v in vs)),
+                        extra={"note": f"symbols reaching the part: {sorted(vs)}"})
+
+
+def m9_block_verifier_composition(S):
+    """BlockVerifier::verify (context-free block checks run before a block is stored): proposals limit, size, cellbase, duplicates and
+    merkle roots are all checked"""
+    from mir2smt import compose as C
+    ob = "C03.m9"
+    ctx = S.ctx()
+    ctx.uninterpreted_unknown_calls = True
+    parts = [("proposals_limit", r"BlockProposalsLimitVerifier::verify$"), ("bytes", r"BlockBytesVerifier::verify$"), ("cellbase", r"CellbaseVerifier::verify$"),
+             ("duplicate", r"DuplicateVerifier::verify$"), ("merkle_root", r"MerkleRootVerifier::verify$")]
+    limits = {}
+
+    def cons(name):
+        def h(ex, c, a, d):
+            limits[name] = True
+            return ex.ctx.int("cons." + name, "u64")
+        return h
+    ctx.env = C.parts_env(parts) + [(E.rx(r"Consensus::max_block_proposals_limit$"), cons("max_block_proposals_limit")), (E.rx(r"Consensus::max_block_bytes$"), cons("max_block_bytes"))] + ERR
+    cands = [f for f in S.prog.funcs if f.kind == "fn" and f.short == "verify" and "block_verifier.rs" in f.name and f.params and re.match(r"^&(?:'\w+ )?BlockVerifier<", f.params[0][1])]
+    if len(cands) != 1:
+        raise Inconclusive(f"BlockVerifier::verify: {len(cands)} candidates")
+    ps = S.run(ctx, cands[0], [ctx.ref_to(OpaqueV("bv", "BlockVerifier")), ctx.ref_to(OpaqueV("block", "BlockView"))])
+    C.check(S, ctx, ob, "block_verifier", ps, [t for t, _ in parts], complete_when=[])
+    # the limit verifiers are built from the consensus limits of the same name
+    for k, p in enumerate(returns(ps)):
+        for tag, want in (("proposals_limit", "cons.max_block_proposals_limit"), ("bytes", "cons.max_block_bytes")):
+            for e in C.called(p, tag):
+                vs = _term_vars(e[2][0])
+                S.prove(ctx, ob, f"path{k}_{tag}_uses_consensus_limit", [p.cond()], bool(want in vs), extra={"note": f"symbols reaching the part: {sorted(vs)}"})
+
+
+def m10_contextual_block_verifier_composition(S):
+    """ContextualBlockVerifier::verify with no check switched off: epoch, uncles, two-phase commit, DAO header, reward, extension and the
+    per-transaction verifier all run and accept; an unknown parent is a rejection; each Switch flag disables exactly its own part"""
+    from mir2smt import compose as C
+    ob = "C03.m10"
+    ctx = S.ctx()
+    ctx.uninterpreted_unknown_calls = True
+    parts = [("epoch", r"contextual_block_verifier::EpochVerifier::<.*>::verify$|(?<!header_verifier::)EpochVerifier::<.*>::verify$"), ("uncles", r"UnclesVerifier::<.*>::verify$"),
+             ("two_phase_commit", r"TwoPhaseCommitVerifier::<.*>::verify$"), ("dao_header", r"DaoHeaderVerifier::<.*>::verify$"), ("reward", r"RewardVerifier::<.*>::verify$"),
+             ("extension", r"BlockExtensionVerifier::<.*>::verify$"), ("block_txs", r"BlockTxsVerifier::<.*>::verify$")]
+    flags = {}
+
+    def flag(name):
+        def h(ex, c, a, d):
+            b = ex.ctx.bool("switch." + name)
+            flags[name] = b.t
+            return b
+        return h
+    known = ctx.bool("parent_known"); genesis = ctx.bool("is_genesis"); epoch_known = ctx.bool("epoch_known")
+    ctx.env = C.parts_env(parts) + [
+        (E.rx(r"Switch::(disable_\w+)$"), lambda ex, c, a, d: flag(c.split("::")[-1])(ex, c, a, d)),
+        (E.rx(r"ChainStore>::get_block_header$"), lambda ex, c, a, d: mk_option(known.t, OpaqueV("parent", "HeaderView"), d)),
+        (E.rx(r"BlockView::is_genesis$"), lambda ex, c, a, d: genesis),
+        (E.rx(r"Consensus::next_epoch_ext"), lambda ex, c, a, d: mk_option(epoch_known.t, OpaqueV("next_epoch", "NextBlockEpoch"), d)),
+        (E.rx(r"::new$|::clone$|::to_owned$|genesis_epoch_ext$|NextBlockEpoch::epoch$|borrow_as_data_loader$|BlockView::(data|header)$|Block::header$|Header::raw$|RawHeader::parent_hash$|HeaderView::hash$"), E.opaque_call()),
+    ] + ERR
+    cands = [f for f in S.prog.funcs if f.kind == "fn" and f.short == "verify" and "contextual_block_verifier.rs" in f.name and f.params and "ContextualBlockVerifier<" in f.params[0][1]]
+    if len(cands) != 1:
+        raise Inconclusive(f"ContextualBlockVerifier::verify: {len(cands)} candidates")
+    ps = S.run(ctx, cands[0], [ctx.ref_to(OpaqueV("cbv", "ContextualBlockVerifier")), OpaqueV("resolved", "&[Arc<ResolvedTransaction>]"), ctx.ref_to(OpaqueV("block", "BlockView"))])
+    all_on = [T.not_(t) for t in flags.values()]
+    if len(flags) < 6:
+        raise Inconclusive(f"only {len(flags)} Switch flags consulted: {sorted(flags)}")
+    C.check(S, ctx, ob, "contextual_block_verifier", ps, [t for t, _ in parts], assume=all_on, complete_when=[known.t, T.or_(genesis.t, epoch_known.t)])
+    okc = T.or_(*[T.and_(p.cond(), C.ok_cond(p)) for p in returns(ps)])
+    S.prove(ctx, ob, "unknown_parent_rejected", [T.not_(known.t)], T.not_(okc))
+    S.prove(ctx, ob, "unknown_epoch_rejected", [T.not_(genesis.t), T.not_(epoch_known.t)], T.not_(okc))
+    # each flag switches off only its own part: with exactly one flag set every other part still runs
+    own = {"disable_epoch": "epoch", "disable_uncles": "uncles", "disable_two_phase_commit": "two_phase_commit", "disable_daoheader": "dao_header",
+           "disable_reward": "reward", "disable_extension": "extension"}
+    for fl, t in sorted(flags.items()):
+        if fl not in own:
+            continue
+        others = [x for x, _ in parts if x != own[fl]]
+        assume = [t] + [T.not_(u) for g, u in flags.items() if g != fl]
+        bad = [T.and_(p.cond(), C.ok_cond(p)) for p in returns(ps) if [x for x in others if not C.called(p, x)]]
+        S.prove(ctx, ob, f"{fl}_switches_off_only_its_own_part", assume, T.not_(T.or_(*bad)) if bad else True)
+
+
+OBLIGATIONS = [m1_number_epoch, m2_timestamp, m3_contextual_epoch, m4_limits, m5_commit_window, m6_median_time, m7_uncle_guards, m8_header_verifier_composition, m9_block_verifier_composition, m10_contextual_block_verifier_composition]
 
 ENGINE = "M"
 LEVEL = "other"
